@@ -2,36 +2,17 @@ package main
 
 import (
 	"fmt"
-	"os"
-	"path/filepath"
 
-	"github.com/lindb/lindb/index"
+	"github.com/lindb/lindb/sql"
 )
 
 func main() {
-	dir := os.Args[1]
-	os.RemoveAll(dir)
-	meta, err := index.NewMetricMetaDatabase("db", dir)
-	if err != nil {
-		panic(err)
+	for _, q := range []string{"select f + 1h from cpu", "select (1h) from cpu", "select * + f from cpu", "select f+1 from cpu", "select sum(f)/count(f) as a from cpu where host='a' group by host having a>1 order by a desc",
+		"select f from cpu group by time(18446744073709552m)", "select f + 9" + fmt.Sprintf("%0400d", 0) + " from cpu", "select f from cpu group by time(10s)", "select * from cpu"} {
+		_, err := sql.Parse(q)
+		if len(q) > 60 {
+			q = q[:60] + "..."
+		}
+		fmt.Println(q, "=>", err)
 	}
-	mid, _ := meta.GenMetricID([]byte("ns"), []byte("m"))
-	meta.PrepareFlush()
-	fmt.Println("flush1", meta.Flush())
-	meta.PrepareFlush()
-	fmt.Println("idle flush", meta.Flush())
-	mid2, _ := meta.GenMetricID([]byte("ns"), []byte("m2"))
-	meta.PrepareFlush()
-	fmt.Println("flush3", meta.Flush())
-	m, _ := filepath.Glob(filepath.Join(dir, "kv", "*", "*"))
-	fmt.Println(mid, mid2, m)
-	meta.Close()
-	meta, err = index.NewMetricMetaDatabase("db", dir)
-	if err != nil {
-		panic(err)
-	}
-	id, err := meta.GetMetricID("ns", "m")
-	fmt.Println("m", id, err)
-	id, err = meta.GetMetricID("ns", "m2")
-	fmt.Println("m2", id, err)
 }
